@@ -731,10 +731,53 @@ func (h *harness) oblige(c *Case, ev *evaluated) {
 		} else {
 			run.Oblige("oracle: Spec.violates r => rejected (rule-targeted mutations guarded by the Lean specification)", "oracle", 1, !bad, failWhat(ev))
 		}
+		// rule groups whose model = spec theorem is not proved yet: decided by the differential alone
+		for _, g := range differentialGroups {
+			touches := ev.lean.SpecValid
+			for _, r := range ev.lean.Violated {
+				if g.rules[r] {
+					touches = true
+				}
+			}
+			if !touches {
+				continue
+			}
+			groupBad := false
+			if bad {
+				for _, r := range ev.lean.Violated {
+					if g.rules[r] {
+						groupBad = true
+					}
+				}
+				if ev.lean.SpecValid && len(ev.runs) > 0 && len(ev.runs[0].Errs) > 0 && g.msg(ev.runs[0].Errs[0].Msg) {
+					groupBad = true
+				}
+			}
+			run.Oblige("rule group "+g.name+" (differential only): implementation verdict vs Spec."+g.name+" rules, not yet a Lean theorem", "oracle", 1, !groupBad, failWhat(ev))
+		}
 		if ev.lean.HasModel {
 			run.Oblige("correspondence: model verdict + multiset of (message, locations) = implementation's (membership for map-iteration picks)", "correspondence", 1, fk != "correspondence", failWhat(ev))
 		}
 	}
+}
+
+type ruleGroup struct {
+	name  string
+	rules map[string]bool
+	msg   func(string) bool
+}
+
+var differentialGroups = []ruleGroup{
+	{"operations", map[string]bool{"opNameUnique": true, "loneAnonymous": true, "opTypeSupported": true, "singleRootSubscription": true},
+		func(m string) bool {
+			return strings.Contains(m, "operation") || strings.HasPrefix(m, "subscriptions may only")
+		}},
+	{"overlapping-fields", map[string]bool{"fieldsMerge": true}, isMergeClass},
+	{"fragment-cycles", map[string]bool{"noFragmentCycles": true}, func(m string) bool { return m == "fragment cycle detected" }},
+	{"variables", map[string]bool{"variablesUnique": true, "variablesAreInputTypes": true, "variableUsesDefined": true, "variablesUsed": true, "variableUsagesAllowed": true},
+		func(m string) bool {
+			return strings.Contains(m, "variable") || m == "unknown type" || strings.HasSuffix(m, "is not an input type") || m == "no type info for location type"
+		}},
 }
 
 func failWhat(ev *evaluated) string {
@@ -895,6 +938,47 @@ func (h *harness) process(c *Case, ev *evaluated) {
 	}
 }
 
+// selfTest feeds the comparison deliberately wrong Lean answers for one rejected corpus case and
+// expects them to be reported: a dropped model error must give a correspondence failure, a flipped
+// specification verdict a property failure.
+func (h *harness) selfTest() {
+	if h.model == nil {
+		return
+	}
+	files := h.run.CorpusFiles()
+	for _, f := range files {
+		var c Case
+		if hx.LoadReplayCase(f, &c) != nil || c.Schema == nil {
+			continue
+		}
+		c.Stream = "corpus"
+		ev, err := h.evalOne(&c)
+		if err != nil || ev.parseErr != "" || ev.fail != nil || ev.lean == nil || !ev.lean.HasModel || len(ev.lean.Slots) == 0 {
+			continue
+		}
+		// (1) drop one model error
+		t1 := *ev
+		l1 := *ev.lean
+		l1.Slots = l1.Slots[1:]
+		t1.lean, t1.fail = &l1, nil
+		judge(&c, &t1)
+		ok1 := t1.fail != nil && t1.fail.kind == "correspondence"
+		// (2) flip the specification's verdict
+		t2 := *ev
+		l2 := *ev.lean
+		l2.SpecValid = !l2.SpecValid
+		t2.lean, t2.fail = &l2, nil
+		judge(&c, &t2)
+		ok2 := t2.fail != nil && t2.fail.kind == "property"
+		h.run.Oblige("self-test: a wrong model answer / a flipped specification verdict is reported by the comparison", "oracle", 2, ok1 && ok2, fmt.Sprintf("dropped model error reported: %v; flipped verdict reported: %v (%s)", ok1, ok2, f))
+		if !(ok1 && ok2) {
+			h.run.Violate("harness", "self-test of the comparison failed", "", true, &c)
+		}
+		return
+	}
+	h.run.Note("self-test skipped: no rejected corpus case available")
+}
+
 // ---- main --------------------------------------------------------------------------------------
 
 func printReplay(c *Case, ev *evaluated) {
@@ -956,6 +1040,7 @@ func main() {
 		return
 	}
 
+	h.selfTest()
 	for _, f := range run.CorpusFiles() {
 		var c Case
 		if err := hx.LoadReplayCase(f, &c); err != nil || c.Schema == nil {
@@ -1042,6 +1127,36 @@ func main() {
 	run.Finish(h.model)
 }
 
+const driverTimeout = 180 * time.Second
+
+// askAll is AskAll with a time limit: a specification or model evaluation that does not come back
+// is reported (with the batch that was being evaluated) instead of stalling the whole check.
+func (h *harness) askAll(lines []string, batch []*Case) ([]string, error) {
+	type res struct {
+		r   []string
+		err error
+	}
+	ch := make(chan res, 1)
+	go func() {
+		r, err := h.model.AskAll(lines)
+		ch <- res{r, err}
+	}()
+	select {
+	case x := <-ch:
+		return x.r, x.err
+	case <-time.After(driverTimeout):
+		qs := []string{}
+		for _, c := range batch {
+			qs = append(qs, c.Query)
+		}
+		h.run.Violate("harness", fmt.Sprintf("the Lean driver did not answer a batch of %d requests within %v", len(lines), driverTimeout), "", true,
+			map[string]any{"schema": batch[0].Schema, "queries": qs})
+		h.run.Finish(nil)
+		os.Exit(0)
+	}
+	return nil, nil
+}
+
 // runBatch evaluates a batch: one pipelined exchange with the driver, then the real runs.
 func (h *harness) runBatch(batch []*Case) {
 	type item struct {
@@ -1075,7 +1190,15 @@ func (h *harness) runBatch(batch []*Case) {
 	var replies []string
 	if h.model != nil && len(lines) > 0 {
 		var err error
-		replies, err = h.model.AskAll(lines)
+		if f := os.Getenv("C04_DUMP"); f != "" {
+			if fh, e := os.OpenFile(f, os.O_APPEND|os.O_CREATE|os.O_WRONLY, 0o644); e == nil {
+				for _, l := range lines {
+					fh.WriteString(l + "\n")
+				}
+				fh.Close()
+			}
+		}
+		replies, err = h.askAll(lines, batch)
 		if err != nil {
 			fmt.Fprintln(os.Stderr, "model driver failed:", err)
 			h.run.Violate("harness", "model driver failed: "+err.Error(), "", true, nil)
